@@ -29,6 +29,7 @@ func checkC12(c *Ctx) {
 	checkC12AppendAdds(c)
 	checkC12KeyPartners(c)
 	checkC12ValuesAll(c)
+	checkC12TargetKeysKept(c)
 	checkChainResult(c, c.Rule("C12.chain-result", "no chain-method call of *DB stands alone as a statement (its result carries the effect)", 1))
 	r := c.Rule("C12.records-survive", "association mode deletes records of the related model only under Unscope; otherwise detaches with nil foreign keys", 7)
 	dbT := p.Named(pkgGorm, "DB")
@@ -351,6 +352,7 @@ func checkC15(c *Ctx) {
 	p := c.P
 	checkC15PKPlaceholder(c)
 	checkC15LimitMerge(c)
+	checkC15PluckSelect(c)
 	// the inline conditions of the finders are conditions: First/Take/Last/Find hand them on on every path (same rule as C01.args-used)
 	checkArgsUsed(c, c.Rule("C15.finder-conds", "First/Take/Last/Find apply their inline conditions on every path that has not established that there are none", 4), map[string]bool{"First": true, "Take": true, "Last": true, "Find": true})
 	// First/Take/Last arm the not-found error on the statement; every derivation of that statement (a scope that opens a
@@ -825,6 +827,7 @@ func checkC20(c *Ctx) {
 	checkC20FKFlag(c)
 	checkC20ColumnPassthrough(c)
 	checkC20IndexLookup(c)
+	checkC20CheckExpr(c)
 
 	// ---- C20.guarded-add ----
 	rg := c.Rule("C20.guarded-add", "every additive DDL call in AutoMigrate is conditional on absence (and MigrateColumn on presence)", 6)
